@@ -22,7 +22,7 @@ class AnalysisError(Exception):
 
 class Ob:
     __slots__ = ("rule", "file", "func", "key", "required", "found", "ok",
-                 "line", "note")
+                 "line", "note", "lender")
 
     def __init__(self, rule, file, func, key, required, found, ok, line=None,
                  note=None):
@@ -35,6 +35,7 @@ class Ob:
         self.ok = bool(ok)
         self.line = line
         self.note = note
+        self.lender = None      # property whose rule module produced the obligation, when it was borrowed as a prerequisite
 
     def ident(self):
         return (self.rule, self.file, self.func, self.key)
@@ -48,6 +49,8 @@ class Ob:
             d["line"] = self.line
         if self.note:
             d["note"] = self.note
+        if self.lender:
+            d["prerequisite_from"] = self.lender
         return d
 
 
@@ -184,6 +187,36 @@ class Ledger:
         if text not in self.assumptions:
             self.assumptions.append(text)
 
+    def borrow(self, lender, reason, pred, run_lender):
+        """Prerequisites: rule instances of another property's module that are necessary conditions of THIS property as well
+        (the behaviour this property states is built on the behaviour those rules decide; `reason` says how).  The lender's
+        rule groups are run on a ledger of their own; the obligations selected by `pred` are taken over, labelled with their
+        origin.  A lender that cannot be analysed adds nothing (this property's own rules keep their verdict); floors and
+        deferred analysis errors of the lender stay the lender's."""
+        rec = self.extra.setdefault("prerequisites", {}).setdefault(lender, {"reason": reason, "obligations": 0, "violated": 0})
+        try:
+            sub = run_lender(lender)
+        except AnalysisError as e:
+            rec["not_evaluated"] = str(e)[:200]
+            return
+        n = 0
+        for o in sub.obs:
+            if not pred(o):
+                continue
+            i = o.ident()
+            if i in self._seen:
+                continue
+            self._seen.add(i)
+            o.lender = lender
+            o.note = ("prerequisite (rule of %s): %s" % (lender, reason)) if not o.note else o.note
+            self.obs.append(o)
+            n += 1
+            rec["violated"] += int(not o.ok)
+            rf = o.file
+            if rf and rf not in self.units and rf in sub.units:
+                self.units[rf] = sub.units[rf]
+        rec["obligations"] += n
+
     # -- verdict ----------------------------------------------------------
     def finish(self):
         known = load_known()
@@ -191,7 +224,7 @@ class Ledger:
         for o in self.obs:
             if o.ok:
                 continue
-            k = match_known(known, self.prop, o)
+            k = match_known(known, o.lender or self.prop, o)
             if k is not None:
                 knownhits.append((o, k))
             else:
